@@ -507,6 +507,11 @@ pub fn gen_input(t: &mut Tape) -> Vec<u8> {
     // a text typed or saved with CR LF line ends (the carriage return is the
     // last character of the line as far as this interpreter is concerned)
     let crlf = t.chance(1, 8);
+    // a text saved with a byte order mark at its very start (as far as this
+    // interpreter is concerned the mark belongs to the first line)
+    if n > 0 && t.chance(1, 10) {
+        out.extend_from_slice("\u{feff}".as_bytes());
+    }
     for i in 0..n {
         match t.weighted(&[6, 2, 3, 1, 1, 1, 2, 1]) {
             0 => out.extend_from_slice(format!("in{}-{}", i, t.pick(WORDS)).as_bytes()),
